@@ -383,7 +383,7 @@ fn define_trait_impl(
         }
     }
 
-    for method_name in trait_method_names.iter() {
+    for method_name in trait_def.methods.keys() {
         if !implemented_methods.contains(method_name) {
             diagnostics.push(Diagnostic::new(
                 Stage::Typer,
